@@ -1,6 +1,5 @@
 (** Executable enumeration of the contour model for the correspondence run of C11. *)
-Require Import Norad.Model.Base Norad.Model.Contour.
-From Coq Require Import Ascii String.
+Require Import Norad.Run.RunBase Norad.Model.Contour.
 Open Scope N_scope.
 
 (** symbol d in 0..9 : type = d / 2 in [move,line,offcurve,curve,qcurve], smooth = d mod 2 *)
@@ -27,7 +26,6 @@ Definition verdict (pts : list pt) : N :=
   | inl Trailing => 5
   | inl UnreachableMove => 6
   end.
-Definition digit (n : N) : ascii := ascii_of_N (48 + n).
 (** model verdict and spec verdict ('L' legal / 'I' illegal would be redundant by the theorem,
     but printing both lets the driver show which side moved when they differ) *)
 Definition verdicts (n : nat) : string :=
@@ -66,15 +64,6 @@ Definition case_legal_chunks (cs : list string) : list string :=
 
 (** comparison inside Coq: the expected verdicts come in as one string literal, only the
     disagreeing positions (index, model verdict, expected) are printed *)
-Fixpoint diff_aux (i : N) (ms : list ascii) (es : list ascii) (acc : list (N * ascii * ascii))
-  : list (N * ascii * ascii) :=
-  match ms, es with
-  | m :: ms', e :: es' =>
-      diff_aux (i + 1) ms' es' (if Ascii.eqb m e then acc else (i, m, e) :: acc)
-  | [], [] => rev acc
-  | m :: _, [] => rev ((i, m, "?"%char) :: acc)
-  | [], e :: _ => rev ((i, "?"%char, e) :: acc)
-  end.
 Definition diff_verdicts (n : nat) (expected : string) :=
   diff_aux 0 (map (fun s => digit (verdict s)) (seqs n)) (list_ascii_of_string expected) [].
 Definition diff_legal (n : nat) (expected : string) :=
@@ -85,3 +74,15 @@ Definition diff_cases (cs : list string) (expected : string) :=
 Definition diff_cases_legal (cs : list string) (expected : string) :=
   diff_aux 0 (map (fun s => if legalb (of_digits s) then "1"%char else "0"%char) cs)
            (list_ascii_of_string expected) [].
+
+(** sharded enumeration: all sequences [prefix ++ t] with [t] of length [n] *)
+Definition diff_verdicts_from (prefix : string) (n : nat) (expected : list string) :=
+  diff_aux 0 (map (fun s => digit (verdict (of_digits prefix ++ s))) (seqs n))
+           (list_ascii_of_string (cat expected)) [].
+Definition diff_legal_from (prefix : string) (n : nat) (expected : list string) :=
+  diff_aux 0 (map (fun s => if legalb (of_digits prefix ++ s) then "1"%char else "0"%char) (seqs n))
+           (list_ascii_of_string (cat expected)) [].
+Definition diff_cases_l (cs : list string) (expected : list string) :=
+  diff_cases cs (cat expected).
+Definition diff_cases_legal_l (cs : list string) (expected : list string) :=
+  diff_cases_legal cs (cat expected).
